@@ -6,15 +6,32 @@
 (* UploadSlots.                                                            *)
 (*                                                                         *)
 (* Records (JSON).  Every record has t (virtual time, microseconds since   *)
-(* the start of the scenario), slots and users = <<[s, f, p], ...>> (what  *)
-(* User.status / settings.users.friends / User.privileged say for user     *)
-(* 1, 2, ... right after the event).                                       *)
-(*   init                 first record                                     *)
-(*   st   : u, old, new   a TransferStateListener of upload u was told     *)
-(*   attr                 the limit or a user attribute changed            *)
+(* the start of the scenario), slots and users = <<[f, p], ...>> (what     *)
+(* settings.users.friends / User.privileged say for user 1, 2, ... right   *)
+(* after the event).                                                       *)
+(*   init : told          first record; told = statuses the server has     *)
+(*                        told so far                                      *)
+(*   st   : u, old, new, busy   a TransferStateListener of upload u was    *)
+(*                        told; busy: a task of this upload other than the *)
+(*                        one making the change is in flight               *)
+(*   attr                 the limit, a friend or a privilege changed       *)
+(*   told : o, s          the client received the status of user o from    *)
+(*                        the server (AddUser / GetUserStatus response)    *)
+(*   forget : o           the client told the server to stop watching user *)
+(*                        o (RemoveUser)                                   *)
+(*   call : u             the application called abort() / pause() for     *)
+(*   ret  : u             upload u / that call returned.  In between the   *)
+(*                        upload is on its way out: it is no candidate for *)
+(*                        a slot (the cycle skips transfers whose state    *)
+(*                        change is in progress)                           *)
 (*   req  : u             a PeerTransferRequest for upload u left the      *)
 (*                        uploader                                         *)
 (*   end                  the scenario was left alone for more than Bound  *)
+(*                                                                         *)
+(* A user's status is what the server told the client (variable `told`);   *)
+(* after a `forget` it is unknown again only if the user has no unfinished *)
+(* upload at that moment - what the client's own User object says is not   *)
+(* consulted, so forgetting a user too early does not excuse anything.     *)
 (*                                                                         *)
 (* Only what C05 constrains is constrained: which uploads start when.  The *)
 (* management machinery (queue, flags, sleeps) is NOT part of the trace    *)
@@ -33,34 +50,39 @@ CONSTANT Bound          \* microseconds
 
 Traces == JsonDeserialize(IOEnv.TRACE_FILE)
 
-VARIABLES tid, l, now, reqSeen, stallSince, cause, marks
+VARIABLES tid, l, now, reqSeen, leaving, stallSince, cause, why, culprit, marks
 
-tvars == <<vars, tid, l, now, reqSeen, stallSince, cause, marks>>
+tvars == <<vars, tid, l, now, reqSeen, leaving, stallSince, cause, why, culprit, marks>>
 
 T == Traces[tid]
 Rec == T[l]
 
 \* users are 1..N in the design spec and in the log
-StatusOf(rec, o) == IF o <= Len(rec.users) THEN rec.users[o][1] ELSE "unknown"
-FriendOf(rec, o) == IF o <= Len(rec.users) THEN rec.users[o][2] ELSE FALSE
-PrivOf(rec, o) == IF o <= Len(rec.users) THEN rec.users[o][3] ELSE FALSE
+FriendOf(rec, o) == IF o <= Len(rec.users) THEN rec.users[o][1] ELSE FALSE
+PrivOf(rec, o) == IF o <= Len(rec.users) THEN rec.users[o][2] ELSE FALSE
 
 AttrsFrom(rec) ==
   /\ slots' = rec.slots
-  /\ status' = [o \in Users |-> StatusOf(rec, o)]
   /\ friend' = [o \in Users |-> FriendOf(rec, o)]
   /\ priv' = [o \in Users |-> PrivOf(rec, o)]
 
 AttrsAgree(rec) ==
   /\ slots = rec.slots
-  /\ \A o \in Users : status[o] = StatusOf(rec, o) /\ friend[o] = FriendOf(rec, o) /\ priv[o] = PrivOf(rec, o)
+  /\ \A o \in Users : friend[o] = FriendOf(rec, o) /\ priv[o] = PrivOf(rec, o)
+
+\* in the trace spec the client's own knowledge is not a separate thing: status = told
+SetTold(f) == told' = f /\ status' = f /\ UNCHANGED <<truth, watch>>
 
 TInit ==
   /\ tid \in 1..Len(Traces)
   /\ l = 2
   /\ Len(Traces[tid]) >= 1 /\ Traces[tid][1].ev = "init"
   /\ slots = Traces[tid][1].slots
-  /\ status = [o \in Users |-> StatusOf(Traces[tid][1], o)]
+  /\ told = [o \in Users |-> IF o <= Len(Traces[tid][1].told) THEN Traces[tid][1].told[o] ELSE "unknown"]
+  /\ status = told
+  /\ truth = told
+  /\ watch = [o \in Users |-> "no"]
+  /\ tail = [u \in Uploads |-> FALSE]
   /\ friend = [o \in Users |-> FriendOf(Traces[tid][1], o)]
   /\ priv = [o \in Users |-> PrivOf(Traces[tid][1], o)]
   /\ st = [u \in Uploads |-> "NONE"]
@@ -71,8 +93,11 @@ TInit ==
   /\ slotLeft = 0 /\ attrLeft = 0 /\ lifeLeft = 0
   /\ now = Traces[tid][1].t
   /\ reqSeen = {}
+  /\ leaving = {}
   /\ stallSince = -1
   /\ cause = "none"
+  /\ why = [u \in Uploads |-> <<"none", FALSE>>]
+  /\ culprit = "none"
   /\ marks = {}
 
 IsEv(e) == l <= Len(T) /\ Rec.ev = e
@@ -82,14 +107,26 @@ IsEv(e) == l <= Len(T) /\ Rec.ev = e
 TimeOK(t) == t >= now /\ (t > now => NumTasks(ready) = 0)
 
 \* stall bookkeeping: since when has some upload been startable, and which kind of event made it so
-SomeStartable == \E v \in Uploads : Startable(v)
+\* an upload whose abort / pause is under way is no candidate
+EligibleT(v) == Eligible(v) /\ v \notin leaving
+SomeStartable == \E v \in Uploads : Startable(v) /\ v \notin leaving
+\* For the report: `cause` is the kind of event that began the stall, `culprit` the last change of the (lowest)
+\* upload that is startable and is not started.
 Stall(kind) ==
-  IF SomeStartable'
-    THEN IF SomeStartable THEN UNCHANGED <<stallSince, cause>>
-                          ELSE stallSince' = now' /\ cause' = kind
-    ELSE stallSince' = -1 /\ cause' = "none"
+  /\ IF SomeStartable'
+       THEN IF SomeStartable THEN UNCHANGED <<stallSince, cause>>
+                             ELSE stallSince' = now' /\ cause' = kind
+       ELSE stallSince' = -1 /\ cause' = "none"
+  /\ culprit' = IF SomeStartable'
+                  THEN LET c == {v \in Uploads : (Startable(v) /\ v \notin leaving)'}
+                           b == {v \in c : why'[v][2]}          \* ... preferably one whose own task was in the way
+                           d == IF b # {} THEN b ELSE c
+                       IN why'[CHOOSE v \in d : \A w \in d : v <= w][1]
+                  ELSE "none"
 
 Consume == l' = l + 1 /\ now' = Rec.t /\ UNCHANGED <<tid, marks>>
+Keep == UNCHANGED leaving
+KeepWhy == UNCHANGED why
 
 Old(s) == IF s = "VIRGIN" THEN "NONE" ELSE s
 
@@ -105,20 +142,46 @@ TSt ==
           \/ QueueRequest(u) \/ Resume(u) \/ Negotiated(u) \/ Complete(u) \/ Fail(u) \/ BackToQueue(u)
           \/ Abort(u) \/ Pause(u)
           \* any other change that does not make the upload active is none of C05's business (C03 judges edges)
-          \/ (Rec.new \notin Active /\ Rec.new # "NONE" /\ Change(u, Rec.new))
+          \/ (Rec.new \notin Active /\ Rec.new # "NONE" /\ Change(u, Rec.new, "keep"))
        /\ st'[u] = Rec.new
        /\ reqSeen' = IF Rec.new = "INITIALIZING" THEN reqSeen ELSE reqSeen \ {u}
   /\ UNCHANGED budgets
-  /\ Consume /\ Stall("st")
+  /\ Consume /\ Keep
+  /\ why' = [why EXCEPT ![Rec.u] = <<"st:" \o Rec.old \o "->" \o Rec.new \o (IF Rec.busy THEN ":task-in-flight" ELSE ""),
+                                      Rec.busy>>]
+  /\ Stall("st:" \o Rec.old \o "->" \o Rec.new \o (IF Rec.busy THEN ":task-in-flight" ELSE ""))
 
 \* the limit or a user attribute changed
 TAttr ==
   /\ IsEv("attr")
   /\ TimeOK(Rec.t)
   /\ AttrsFrom(Rec)
-  /\ UNCHANGED <<st, order, ready, mgmt, grantLim, budgets, reqSeen>>
-  /\ Consume
+  /\ UNCHANGED <<status, know, st, order, ready, mgmt, grantLim, tail, budgets, reqSeen>>
+  /\ Consume /\ Keep /\ KeepWhy
   /\ Stall(IF Rec.slots > slots THEN "slots-raised" ELSE "attr")
+
+\* the server told the client the status of a user
+TTold ==
+  /\ IsEv("told")
+  /\ TimeOK(Rec.t)
+  /\ Rec.o \in Users /\ Rec.s \in Statuses
+  /\ AttrsAgree(Rec)
+  /\ SetTold([told EXCEPT ![Rec.o] = Rec.s])
+  /\ UNCHANGED <<slots, friend, priv, st, order, ready, mgmt, grantLim, tail, budgets, reqSeen>>
+  /\ Consume /\ Keep /\ KeepWhy
+  /\ Stall("told-" \o Rec.s)
+
+\* the client has the server stop watching a user: what was told is void only if the user has no
+\* unfinished upload (UploadSlots!ToldAfterForget)
+TForget ==
+  /\ IsEv("forget")
+  /\ TimeOK(Rec.t)
+  /\ Rec.o \in Users
+  /\ AttrsAgree(Rec)
+  /\ SetTold(ToldAfterForget({Rec.o}))
+  /\ UNCHANGED <<slots, friend, priv, st, order, ready, mgmt, grantLim, tail, budgets, reqSeen>>
+  /\ Consume /\ Keep /\ KeepWhy
+  /\ Stall("forget")
 
 \* a PeerTransferRequest left the uploader: only for an upload that is being initialised, once
 TReq ==
@@ -128,14 +191,31 @@ TReq ==
   /\ st[Rec.u] = "INITIALIZING"
   /\ Rec.u \notin reqSeen
   /\ reqSeen' = reqSeen \cup {Rec.u}
-  /\ UNCHANGED <<vars, stallSince, cause>>
-  /\ Consume
+  /\ UNCHANGED <<vars, stallSince, cause, why, culprit>>
+  /\ Consume /\ Keep
 
 TEnd ==
   /\ IsEv("end")
   /\ TimeOK(Rec.t)
-  /\ UNCHANGED <<vars, reqSeen, stallSince, cause>>
+  /\ UNCHANGED <<vars, reqSeen, stallSince, cause, why, culprit>>
+  /\ Consume /\ Keep
+
+\* the application asks for upload u to be aborted / paused; the call returns
+TCall ==
+  /\ IsEv("call")
+  /\ TimeOK(Rec.t)
+  /\ leaving' = leaving \cup {Rec.u}
+  /\ UNCHANGED <<vars, reqSeen, why>>
   /\ Consume
+  /\ Stall("call")
+
+TRet ==
+  /\ IsEv("ret")
+  /\ TimeOK(Rec.t)
+  /\ leaving' = leaving \ {Rec.u}
+  /\ UNCHANGED <<vars, reqSeen, why>>
+  /\ Consume
+  /\ Stall("ret")
 
 \* uploads that start (QUEUED -> INITIALIZING) in the records from l on that carry the same time stamp
 RECURSIVE InitsFrom(_, _)
@@ -158,29 +238,19 @@ TGrant ==
          /\ ready' = ready \o perm
          /\ grantLim' = slots
   /\ now' = Rec.t
-  /\ UNCHANGED <<attrs, st, order, mgmt, budgets, tid, l, reqSeen, marks>>
+  /\ UNCHANGED <<attrs, know, st, order, mgmt, tail, budgets, tid, l, reqSeen, leaving, why, marks>>
   /\ Stall("grant")
-
-\* Known finding (open): a raised limit is not applied until something else requests a cycle.  The
-\* stall it causes - and only that one - is tolerated and marked.
-Tolerate ==
-  /\ l <= Len(T)
-  /\ stallSince >= 0 /\ cause = "slots-raised"
-  /\ Rec.t - stallSince > Bound          \* only when the clean path is about to be cut
-  /\ "set-upload-slots:raised-limit-not-applied" \notin marks
-  /\ marks' = marks \cup {"set-upload-slots:raised-limit-not-applied"}
-  /\ UNCHANGED <<vars, tid, l, now, reqSeen, stallSince, cause>>
 
 Done ==
   /\ l = Len(T) + 1
   /\ NumTasks(ready) = 0
   /\ PrintT(<<"ACCEPT", tid, marks>>)
   /\ l' = l + 1
-  /\ UNCHANGED <<vars, tid, now, reqSeen, stallSince, cause, marks>>
+  /\ UNCHANGED <<vars, tid, now, reqSeen, leaving, stallSince, cause, why, culprit, marks>>
 
 Finished == l = Len(T) + 2 /\ UNCHANGED tvars
 
-TNext == TSt \/ TAttr \/ TReq \/ TEnd \/ TGrant \/ Tolerate \/ Done \/ Finished
+TNext == TSt \/ TAttr \/ TTold \/ TForget \/ TCall \/ TRet \/ TReq \/ TEnd \/ TGrant \/ Done \/ Finished
 
 TSpec == TInit /\ [][TNext]_tvars
 
@@ -188,17 +258,16 @@ TSpec == TInit /\ [][TNext]_tvars
 \* the properties of UploadSlots as constraints (a path that breaks one is cut, see harness/tlc.py)
 StartRespectsLimitC == Starts # {} => Cardinality(ActiveSet(st')) <= Max(slots', grantLim)
 NeverOfflineC ==
-  /\ \A u \in Granted : status[Owner(u)] # "offline"
+  /\ \A u \in Granted : told[Owner(u)] # "offline"
   /\ \A u \in Starts : TaskCount(ready, u) > 0
 PriorityHoldsC ==
   \A u \in Granted : \A v \in Uploads :
-     (/\ Eligible(v) /\ Owner(v) # Owner(u)
+     (/\ EligibleT(v) /\ Owner(v) # Owner(u)
       /\ \A w \in Granted : Owner(w) # Owner(v))
      => Rank(Owner(u)) >= Rank(Owner(v))
 
 \* bounded-time form of EventuallyStarted
-Tolerated == cause = "slots-raised" /\ "set-upload-slots:raised-limit-not-applied" \in marks
-EventuallyStartedB == stallSince >= 0 => (now - stallSince <= Bound \/ Tolerated)
+EventuallyStartedB == stallSince >= 0 => now - stallSince <= Bound
 
 \* the same as temporal formulas for TraceDiag.cfg
 StartRespectsLimitT == [][StartRespectsLimitC]_tvars
